@@ -154,6 +154,14 @@ class C07a(Monitor):
             f = s.state("Filtration") if _alive(r, "Filtration") else "DEAD"
             if f not in ("wash_backwash", "wash_rinse"):
                 r.report("C07", f"drain-open-in:{f}", f"drain/backwash valve open in {f}")
+        # "entered only when the tank is high": at the first settled instant of a cycle (no time has passed since the guard was
+        # evaluated: the tank controller only changes phase in its own polls) the tank controller is in `high`
+        if _alive(r, "Filtration") and _alive(r, "Tank"):
+            f = s.state("Filtration")
+            prev = getattr(self, "_prev_f", None)
+            if f == "wash_backwash" and prev is not None and not prev.startswith("wash") and s.state("Tank") != "high":
+                r.report("C07", "backwash-entered-with-tank:" + s.state("Tank"), f"a backwash cycle was entered (from {prev}) while the tank controller is in {s.state('Tank')}, not high")
+            self._prev_f = f
 
 
 class C12a(Monitor):
